@@ -11,21 +11,21 @@ From GMS Require Import Store.C15Editor Store.C15EditorProofs.
    failing one; whatever ApplyEdits would have done, the statement reports the error and the session's table is
    exactly the one before the statement *)
 Theorem C15_stmt_atomic_failure_at_any_row_position :
-  forall (T E : Type) (apply_opt : T -> list E -> option T * T) (t : T) (pre post : list (call E)),
+  forall (T E : Type) (apply_opt : nat -> T -> list E -> option T * T) (t : T) (pre post : list (call E)),
     all_good E pre = true ->
     run_stmt T E apply_opt t (pre ++ CBad false :: post) = (RErr, t).
 Proof. exact stmt_atomic_at_any_position. Qed.
 Print Assumptions C15_stmt_atomic_failure_at_any_row_position.
 
 Theorem C15_stmt_atomic_first_failure_decides :
-  forall (T E : Type) (apply_opt : T -> list E -> option T * T) (t : T) (cs : list (call E)),
+  forall (T E : Type) (apply_opt : nat -> T -> list E -> option T * T) (t : T) (cs : list (call E)),
     first_bad E cs = Some false -> run_stmt T E apply_opt t cs = (RErr, t).
 Proof. exact stmt_atomic. Qed.
 Print Assumptions C15_stmt_atomic_first_failure_decides.
 
 (* an injected storage error at the k-th row-edit call, for EVERY k within the statement *)
 Theorem C15_stmt_atomic_injected_storage_error_at_every_call :
-  forall (T E : Type) (apply_opt : T -> list E -> option T * T) (t : T) (cs : list (call E)) (k : nat),
+  forall (T E : Type) (apply_opt : nat -> T -> list E -> option T * T) (t : T) (cs : list (call E)) (k : nat),
     1 <= k <= length cs -> all_good E (firstn (k - 1) cs) = true ->
     run_stmt T E apply_opt t (inject E k cs) = (RErr, t).
 Proof. exact stmt_atomic_injected. Qed.
@@ -41,7 +41,7 @@ Print Assumptions C15_stmt_all_or_nothing.
 
 (* with a BEFORE INSERT trigger the TARGET table is still restored ... *)
 Theorem C15_trigger_statement_restores_target_table :
-  forall (T E : Type) (apply_opt : T -> list E -> option T * T) (A : Type) (audit_edit : A -> E)
+  forall (T E : Type) (apply_opt : nat -> T -> list E -> option T * T) (A : Type) (audit_edit : A -> E)
          (t other : T) (cs : list (A * call E)),
     first_bad_trig E A cs = Some false ->
     exists other', run_stmt_trig T E apply_opt A audit_edit t other cs = (RErr, t, other').
@@ -63,13 +63,32 @@ Print Assumptions C15_trigger_effects_survive_failure_refuted.
 (* if ApplyEdits itself fails, StatementComplete returns nil, Close reports the error, and the edits ApplyEdits had
    already made stay in the session's table (not exhibited on the implementation: no fault hook inside ApplyEdits) *)
 Theorem C15_apply_edits_failure_leaves_partial_edits_refuted :
-  exists (apply_opt : list nat -> list nat -> option (list nat) * list nat) (cs : list (call nat)) (t' : list nat),
+  exists (apply_opt : nat -> list nat -> list nat -> option (list nat) * list nat) (cs : list (call nat)) (t' : list nat),
     all_good nat cs = true /\ run_stmt (list nat) nat apply_opt [] cs = (RErr, t') /\ t' <> [].
 Proof.
   exists failing_apply, [CGood 1; CGood 2], [1; 1].
   split; [reflexivity|]. split; [exact apply_failure_leaves_partial_edits | discriminate].
 Qed.
 Print Assumptions C15_apply_edits_failure_leaves_partial_edits_refuted.
+
+(* exhibited on the implementation with memory.VerifC15ResetApplyFault: a one-shot storage error in the ApplyEdits call
+   of tableEditor.Close — after StatementComplete applied and published the edits — makes the statement report an
+   error although every change is in place ... *)
+Theorem C15_apply_error_at_close_reported_after_publish_refuted :
+  exists (apply_opt : nat -> list nat -> list nat -> option (list nat) * list nat) (cs : list (call nat)) (t t' : list nat),
+    all_good nat cs = true /\ run_stmt (list nat) nat apply_opt t cs = (RErr, t') /\ t' <> t.
+Proof.
+  exists close_fault_apply, [CGood 1; CGood 2], [7], [7; 1; 2].
+  split; [reflexivity|]. split; [exact apply_error_at_close_after_publish | discriminate].
+Qed.
+Print Assumptions C15_apply_error_at_close_reported_after_publish_refuted.
+
+(* ... while the same one-shot error in StatementComplete's call is swallowed (StatementComplete returns nil) and
+   repaired by the retry in Close: the statement succeeds with all changes *)
+Example C15_apply_error_in_statement_complete_is_swallowed :
+  run_stmt (list nat) nat first_fault_apply [7] [CGood 1; CGood 2] = (ROk, [7; 1; 2]).
+Proof. exact apply_error_in_statement_complete_is_swallowed. Qed.
+Print Assumptions C15_apply_error_in_statement_complete_is_swallowed.
 
 Example C15_nonvacuous :
   run_stmt (list nat) nat app_apply [7] (inject nat 3 [CGood 1; CGood 2; CGood 3; CGood 4]) = (RErr, [7]) /\
